@@ -309,7 +309,7 @@ func (h *handler) doQuery(sqlString string, permalink string) (*QueryResult, err
 	var mx sync.Mutex
 	ctx, cancel := context.WithTimeout(context.Background(), h.QueryTimeout)
 	defer cancel()
-	stats, _ := rs.Iterate(ctx, func(inFields core.Fields) error {
+	stats, iterateErr := rs.Iterate(ctx, func(inFields core.Fields) error {
 		fields = inFields
 		for _, field := range fields {
 			result.Fields = append(result.Fields, field.Name)
@@ -360,6 +360,11 @@ func (h *handler) doQuery(sqlString string, permalink string) (*QueryResult, err
 		mx.Unlock()
 		return true, nil
 	})
+	if iterateErr != nil {
+		// Don't cache and serve an incomplete result as if it were complete
+		log.Errorf("Error iterating: %v", iterateErr)
+		return nil, iterateErr
+	}
 
 	result.TSCardinality = tsCardinality.Count()
 	result.Dims = make([]string, 0, len(dimCardinalities))
